@@ -158,6 +158,13 @@ for_clause : tkFOR tkWORD linebreak do_group {
 		&ShAtom{shtText, "\"", shqPlain, nil})
 	$$ = &MkShFor{$2.MkText, []*ShToken{args}, $4}
 }
+for_clause : tkFOR tkWORD tkSEMI linebreak do_group {
+	args := NewShToken("\"$$@\"",
+		&ShAtom{shtText, "\"", shqDquot, nil},
+		&ShAtom{shtShExpr, "$$@", shqDquot, "@"},
+		&ShAtom{shtText, "\"", shqPlain, nil})
+	$$ = &MkShFor{$2.MkText, []*ShToken{args}, $5}
+}
 for_clause : tkFOR tkWORD linebreak tkIN sequential_sep do_group {
 	$$ = &MkShFor{$2.MkText, nil, $6}
 }
